@@ -1,5 +1,5 @@
 (* C04 — proofs about the model of FlatSchema (Model.v). *)
-From Coq Require Import List NArith Bool Lia.
+From Coq Require Import List NArith Bool Arith Lia.
 Import ListNotations.
 From Verif.C04 Require Import Model.
 Open Scope N_scope.
@@ -1627,4 +1627,201 @@ Proof.
       eapply step_complete; try eassumption. intros n En. apply (Hnd n). left. auto.
     + exact H2.
     + intros n Hin. apply (Hnd n). right. exact Hin.
+Qed.
+
+(* ------------------------------------------------------------------ *)
+(* consequences of the invariant                                        *)
+
+(* lookups by name are unambiguous *)
+Lemma glob_unique e s : Inv e s ->
+  forall i j c ci di dj n,
+    gty s i = Some c -> gty s j = Some c -> cinfo_of e c = Some ci -> c_qual ci = false ->
+    gdata s i = Some di -> gdata s j = Some dj -> name_of ci di = Some n -> name_of ci dj = Some n ->
+    i = j.
+Proof.
+  intros HI i j c ci di dj n Ti Tj Hci Hq Di Dj Ni Nj.
+  assert (A : aget ck_eqb (c, n) (s_glob s) = Some i) by (apply (i_glob _ _ HI); exists ci, di; repeat split; assumption).
+  assert (B : aget ck_eqb (c, n) (s_glob s) = Some j) by (apply (i_glob _ _ HI); exists ci, dj; repeat split; assumption).
+  congruence.
+Qed.
+
+Lemma name_unique e s : Inv e s -> NameComplete e s ->
+  forall i j ci cj cii cij di dj n,
+    gty s i = Some ci -> gty s j = Some cj -> cinfo_of e ci = Some cii -> cinfo_of e cj = Some cij ->
+    c_qual cii = true -> c_qual cij = true ->
+    gdata s i = Some di -> gdata s j = Some dj -> name_of cii di = Some n -> name_of cij dj = Some n ->
+    i = j.
+Proof.
+  intros HI HN i j ci cj cii cij di dj n Ti Tj Ci Cj Qi Qj Di Dj Ni Nj.
+  pose proof (HN i ci cii di n Ti Ci Qi Di Ni). pose proof (HN j cj cij dj n Tj Cj Qj Dj Nj). congruence.
+Qed.
+
+(* an id that is not in the schema is reachable through no index *)
+Lemma absent_unreachable e s i : Inv e s -> gty s i = None ->
+  gdata s i = None
+  /\ (forall n, aget name_eqb n (s_name s) <> Some i)
+  /\ (forall k, aget ck_eqb k (s_glob s) <> Some i)
+  /\ (forall k, ~ shin (s_short s) k i)
+  /\ (forall t k, ~ rin (s_refs s) t k i).
+Proof.
+  intros HI H. split; [apply (i_dom _ _ HI); exact H|]. split; [|split; [|split]].
+  - intros n Hn. destruct (i_name _ _ HI n i Hn) as [c [ci [d [G _]]]]. congruence.
+  - intros [c n] Hk. destruct (proj1 (i_glob _ _ HI c n i) Hk) as [ci [d [G _]]]. congruence.
+  - intros [c sn] Hk. destruct (proj1 (i_short _ _ HI c sn i) Hk) as [ci [d [n [G _]]]]. congruence.
+  - intros t [c f] Hk. destruct (proj1 (i_refs _ _ HI t c f i) Hk) as [ci [d [G _]]]. congruence.
+Qed.
+
+Lemma delete_unreachable e s hc i s' :
+  wf_env e -> Inv e s -> gty s i = Some hc -> delete e s hc i = inl s' ->
+  gty s' i = None /\ gdata s' i = None
+  /\ (forall n, aget name_eqb n (s_name s') <> Some i)
+  /\ (forall k, aget ck_eqb k (s_glob s') <> Some i)
+  /\ (forall k, ~ shin (s_short s') k i)
+  /\ (forall t k, ~ rin (s_refs s') t k i).
+Proof.
+  intros We HI Hty H. destruct (delete_chg _ _ _ _ _ We HI Hty H) as [ci [d HC]].
+  pose proof (master HI HC) as HI'. destruct (m_self HC) as [_ Hb]. simpl in Hb.
+  split; [exact Hb|]. apply (absent_unreachable e s' i HI' Hb).
+Qed.
+
+(* rejected = no-op; earlier values are never touched (by construction of a functional model;
+   on the implementation this is what the monitors check) *)
+Lemma rejected_noop e s o x : step e s o = inr x -> apply e s o = s.
+Proof. unfold apply. intros ->. reflexivity. Qed.
+
+Lemma trace_app e os1 : forall s os2,
+  trace e s (os1 ++ os2) = trace e s os1 ++ trace e (run e s os1) os2.
+Proof.
+  induction os1 as [|o os1 IH]; intros s os2; simpl; [reflexivity|].
+  unfold apply. destruct (step e s o) as [s'|x]; simpl; rewrite IH; reflexivity.
+Qed.
+
+Lemma trace_length e os : forall s, length (trace e s os) = length os.
+Proof.
+  induction os as [|o os IH]; intro s; simpl; [reflexivity|].
+  destruct (step e s o); simpl; rewrite IH; reflexivity.
+Qed.
+
+Lemma trace_prefix e s os1 os2 :
+  firstn (length os1) (trace e s (os1 ++ os2)) = trace e s os1.
+Proof.
+  rewrite trace_app. rewrite <- (trace_length e os1 s).
+  rewrite firstn_app, Nat.sub_diag, firstn_all. simpl. apply app_nil_r.
+Qed.
+
+Lemma trace_rejected e s o os x :
+  step e s o = inr x -> trace e s (o :: os) = (Some x, s) :: trace e s os.
+Proof. intro H. simpl. rewrite H. reflexivity. Qed.
+
+(* ------------------------------------------------------------------ *)
+(* ChainedSchema                                                        *)
+
+Definition ChInv (e : env) (s : chained) : Prop := Inv e (ch_top s) /\ Inv e (ch_glob s).
+
+Definition wf_ch_op (e : env) (s : chained) (o : op) : Prop :=
+  match o with
+  | OUpdate hc i u =>
+      NoDup (map fst u) /\
+      match cinfo_of e hc with
+      | Some ci =>
+          if c_gobj ci then u = [] \/ gty (ch_glob s) i = Some hc
+          else u = [] \/ gty (ch_top s) i = Some hc
+               \/ (gty (ch_top s) i = None /\ gty (ch_base s) i = Some hc)
+      | None => True
+      end
+  | ODelete hc i | ODiscard hc i =>
+      match cinfo_of e hc with
+      | Some ci =>
+          let p := if c_gobj ci then ch_glob s else ch_top s in
+          gty p i = Some hc \/ gty p i = None
+      | None => True
+      end
+  | _ => True
+  end.
+
+Lemma is_gobj_ok e c g : is_gobj e c = inl g -> exists ci, cinfo_of e c = Some ci /\ g = c_gobj ci.
+Proof.
+  unfold is_gobj. destruct (class_info e c) as [ci|] eqn:E; simpl; [|discriminate].
+  intro H. inversion H. exists ci. apply class_info_ok in E. auto.
+Qed.
+
+Lemma add_raw_ty e s i c d s' : wf_env e -> Inv e s -> add_raw e s i c d = inl s' -> gty s' i = Some c.
+Proof.
+  intros We HI H. destruct (add_raw_chg _ _ _ _ _ _ We HI H) as [ci HC].
+  destruct (m_self HC) as [_ Hb]. exact Hb.
+Qed.
+
+Theorem ch_step_inv e s o s' :
+  wf_env e -> ChInv e s -> wf_ch_op e s o -> ch_step e s o = inl s' ->
+  ChInv e s' /\ ch_base s' = ch_base s.
+Proof.
+  intros We [HT HG] Hwf H.
+  (* a step of one component *)
+  assert (Sub : forall p o' p', Inv e p -> wf_op p o' -> step e p o' = inl p' -> Inv e p')
+    by (intros; eapply step_inv; eassumption).
+  destruct o as [raw i c d|hc i u|hc i f v|hc i f|hc i|hc i|n]; simpl in H.
+  - destruct (is_gobj e c) as [g|] eqn:Eg; simpl in H; [|discriminate]. destruct g.
+    + destruct (step e (ch_glob s) (OAdd raw i c d)) as [r|] eqn:Er; simpl in H; [|discriminate].
+      inversion H; subst s'. simpl. split; [split; [exact HT | apply (Sub _ _ _ HG I Er)] | reflexivity].
+    + destruct (step e (ch_top s) (OAdd raw i c d)) as [r|] eqn:Er; simpl in H; [|discriminate].
+      inversion H; subst s'. simpl. split; [split; [apply (Sub _ _ _ HT I Er) | exact HG] | reflexivity].
+  - destruct (is_gobj e hc) as [g|] eqn:Eg; simpl in H; [|discriminate].
+    destruct (is_gobj_ok _ _ _ Eg) as [ci [Hci ->]]. simpl in Hwf. rewrite Hci in Hwf.
+    destruct Hwf as [Hnd Hwf]. destruct (c_gobj ci).
+    + destruct (update_obj e (ch_glob s) hc i u) as [r|] eqn:Er; simpl in H; [|discriminate].
+      inversion H; subst s'. simpl. split; [split; [exact HT|] | reflexivity].
+      apply (Sub (ch_glob s) (OUpdate hc i u) r HG); [split; assumption | exact Er].
+    + match type of H with (bind ?x _) = _ => destruct x as [top|] eqn:Etop; simpl in H; [|discriminate] end.
+      destruct (update_obj e top hc i u) as [r|] eqn:Er; simpl in H; [|discriminate].
+      inversion H; subst s'. simpl. split; [split; [|exact HG] | reflexivity].
+      assert (Htop : Inv e top /\ (u = [] \/ gty top i = Some hc)).
+      { destruct (aget N.eqb i (s_type (ch_base s))) as [bc|] eqn:Eb.
+        - destruct (amem N.eqb i (s_type (ch_top s))) eqn:Em.
+          + inversion Etop; subst top. split; [exact HT|].
+            destruct Hwf as [->|[Hx|[Hx _]]]; auto.
+            apply amem_true in Em. unfold gty in Hx. contradiction.
+          + destruct (aget N.eqb i (s_data (ch_base s))) as [bd|]; [|discriminate].
+            split; [apply (Sub (ch_top s) (OAdd true i bc bd) top HT I Etop)|].
+            destruct Hwf as [->|[Hx|[_ Hx]]]; auto.
+            * apply amem_false in Em. unfold gty in Hx. congruence.
+            * right. unfold gty in Hx. rewrite Eb in Hx. inversion Hx; subst bc.
+              apply (add_raw_ty e (ch_top s) i hc bd top We HT Etop).
+        - inversion Etop; subst top. split; [exact HT|].
+          destruct Hwf as [->|[Hx|[_ Hx]]]; auto. unfold gty in Hx. congruence. }
+      destruct Htop as [HItop Hw].
+      apply (Sub top (OUpdate hc i u) r HItop); [split; assumption | exact Er].
+  - destruct (is_gobj e hc) as [g|] eqn:Eg; simpl in H; [|discriminate]. destruct g.
+    + destruct (set_field e (ch_glob s) i f v) as [r|] eqn:Er; simpl in H; [|discriminate].
+      inversion H; subst s'. simpl. split; [split; [exact HT | apply (Sub (ch_glob s) (OSet hc i f v) r HG I Er)] | reflexivity].
+    + destruct (set_field e (ch_top s) i f v) as [r|] eqn:Er; simpl in H; [|discriminate].
+      inversion H; subst s'. simpl. split; [split; [apply (Sub (ch_top s) (OSet hc i f v) r HT I Er) | exact HG] | reflexivity].
+  - destruct (is_gobj e hc) as [g|] eqn:Eg; simpl in H; [|discriminate]. destruct g.
+    + destruct (unset_field e (ch_glob s) i f) as [r|] eqn:Er; simpl in H; [|discriminate].
+      inversion H; subst s'. simpl. split; [split; [exact HT | apply (Sub (ch_glob s) (OUnset hc i f) r HG I Er)] | reflexivity].
+    + destruct (unset_field e (ch_top s) i f) as [r|] eqn:Er; simpl in H; [|discriminate].
+      inversion H; subst s'. simpl. split; [split; [apply (Sub (ch_top s) (OUnset hc i f) r HT I Er) | exact HG] | reflexivity].
+  - destruct (is_gobj e hc) as [g|] eqn:Eg; simpl in H; [|discriminate].
+    destruct (is_gobj_ok _ _ _ Eg) as [ci [Hci ->]]. simpl in Hwf. rewrite Hci in Hwf. destruct (c_gobj ci).
+    + destruct (delete e (ch_glob s) hc i) as [r|] eqn:Er; simpl in H; [|discriminate].
+      inversion H; subst s'. simpl. split; [split; [exact HT | apply (Sub (ch_glob s) (ODelete hc i) r HG Hwf Er)] | reflexivity].
+    + destruct (delete e (ch_top s) hc i) as [r|] eqn:Er; simpl in H; [|discriminate].
+      inversion H; subst s'. simpl. split; [split; [apply (Sub (ch_top s) (ODelete hc i) r HT Hwf Er) | exact HG] | reflexivity].
+  - destruct (is_gobj e hc) as [g|] eqn:Eg; simpl in H; [|discriminate].
+    destruct (is_gobj_ok _ _ _ Eg) as [ci [Hci ->]]. simpl in Hwf. rewrite Hci in Hwf. destruct (c_gobj ci).
+    + destruct (discard e (ch_glob s) hc i) as [r|] eqn:Er; simpl in H; [|discriminate].
+      inversion H; subst s'. simpl. split; [split; [exact HT | apply (Sub (ch_glob s) (ODiscard hc i) r HG Hwf Er)] | reflexivity].
+    + destruct (discard e (ch_top s) hc i) as [r|] eqn:Er; simpl in H; [|discriminate].
+      inversion H; subst s'. simpl. split; [split; [apply (Sub (ch_top s) (ODiscard hc i) r HT Hwf Er) | exact HG] | reflexivity].
+  - destruct (delist (ch_top s) n) as [r|] eqn:Er; simpl in H; [|discriminate].
+    inversion H; subst s'. simpl. split; [split; [apply (Sub (ch_top s) (ODelist n) r HT I Er) | exact HG] | reflexivity].
+Qed.
+
+Lemma ch_base_frozen e s o : ch_base (ch_apply e s o) = ch_base s.
+Proof.
+  unfold ch_apply. destruct (ch_step e s o) as [s'|] eqn:E; [|reflexivity].
+  destruct o as [raw i c d|hc i u|hc i f v|hc i f|hc i|hc i|n]; simpl in E;
+    repeat match type of E with
+           | (bind ?x _) = _ => destruct x; simpl in E; [|discriminate]
+           | (if ?b then _ else _) = _ => destruct b
+           end; inversion E; reflexivity.
 Qed.
